@@ -134,8 +134,9 @@ Definition doc_table : list row := [
   mkRow "" "Fragment" "SetFrameOffset" [("gd_off64_t", "offset"); ("int", "recode")] (ForwardThen (mkCall "gd_alter_frameoffset64" [(Member "D->D"); (Param 0); (Member "ind"); (Param 1)] "") "if (!ret) off = offset;");
   mkRow "" "Fragment" "SetProtection" [("int", "protection_level")] (ForwardThen (mkCall "gd_alter_protection" [(Member "D->D"); (Param 0); (Member "ind")] "") "if (!ret) prot = protection_level;");
   mkRow "" "Fragment" "SetNamespace" [("const char*", "new_namespace")] (Opaque "const char*ret = gd_fragment_namespace(D->D, ind, new_namespace); if (ret) ns = ret; return gd_error(D->D);");
-  mkRow "" "Fragment" "SetPrefix" [("const char*", "new_prefix")] (ForwardThen (mkCall "gd_alter_affixes" [(Member "D->D"); (Member "ind"); (Param 0); (Member "suffix")] "") "free(prefix); free(suffix); if (!ret) { ns = gd_fragment_namespace(D->D, ind, NULL); ret = gd_fragment_affixes(D->D, ind,&prefix,&suffix); }");
-  mkRow "" "Fragment" "SetSuffix" [("const char*", "new_suffix")] (ForwardThen (mkCall "gd_alter_affixes" [(Member "D->D"); (Member "ind"); (Member "prefix"); (Param 0)] "") "free(prefix); free(suffix); if (!ret) ret = gd_fragment_affixes(D->D, ind,&prefix,&suffix);");
+  (* CORRECTED (fix bf9d920): the cached affixes are freed and re-read, and the namespace refreshed, only when the call succeeded *)
+  mkRow "" "Fragment" "SetPrefix" [("const char*", "new_prefix")] (ForwardThen (mkCall "gd_alter_affixes" [(Member "D->D"); (Member "ind"); (Param 0); (Member "suffix")] "") "if (!ret) { free(prefix); free(suffix); ns = gd_fragment_namespace(D->D, ind, NULL); ret = gd_fragment_affixes(D->D, ind,&prefix,&suffix); if (ret < 0) prefix = suffix = NULL; }");
+  mkRow "" "Fragment" "SetSuffix" [("const char*", "new_suffix")] (ForwardThen (mkCall "gd_alter_affixes" [(Member "D->D"); (Member "ind"); (Member "prefix"); (Param 0)] "") "if (!ret) { free(prefix); free(suffix); ret = gd_fragment_affixes(D->D, ind,&prefix,&suffix); if (ret < 0) prefix = suffix = NULL; }");
   mkRow "" "Fragment" "Fragment" [("const GetData::Dirfile*", "dirfile"); ("int", "index")] (Opaque "dtrace(""%p, %i"", dirfile, index); D = dirfile; ind = index; enc = (GetData::EncodingScheme)gd_encoding(D->D, index); end = gd_endianness(D->D, index); off = gd_frameoffset64(D->D, index); prot = gd_protection(D->D, index); name = gd_fragmentname(D->D, index); parent = (index == 0) ? -1 : gd_parent_fragment(D->D, index); if (gd_fragment_affixes(D->D, index,&prefix,&suffix) < 0) prefix = suffix = NULL; ns = gd_fragment_namespace(D->D, index, NULL); dreturnvoid();");
   mkRow "" "Fragment" "~Fragment" [] (Opaque "free(prefix); free(suffix);");
   mkRow "" "IndirEntry" "SetInput" [("const char*", "field"); ("int", "index")] (Assigns ["if (index < 0 || index > 1) return -1"] [("in_fields[index]", (CallE "strdup" (Param 0)))] (Some (mkCall "gd_alter_entry" [(Member "D->D"); (Fld (Member "E") "field"); (Addr (Member "E")); (Const "0")] "")));
